@@ -93,6 +93,7 @@ func ResourceCorpus(packageRoot string, seed int64, variant, nRandom int) *Schem
 		{Name: "identifier", Type: P("string")},       // create-only
 		{Name: "f1", Type: R(ns, "Leaf"), Optional: true},  // f1/s read-only
 		{Name: "f10", Type: R(ns, "Leaf"), Optional: true}, // f10/s create-only
+		{Name: "meta", Type: R(ns, "Leaf"), Optional: true}, // read-only as a whole (a record-typed field)
 		{Name: "name", Type: P("string")},
 	}})
 
@@ -210,7 +211,7 @@ func ResourceCorpus(packageRoot string, seed int64, variant, nRandom int) *Schem
 	s.Resources = append(s.Resources, ann3)
 	ann4 := collection("vr.annpfx", nil, "annpfx", "annId", P("int64"), R(ns, "AnnotatedPrefix"))
 	ann4.Methods = restMethods(restMethodsCollection, true, false, nil, false)
-	ann4.ReadOnly = []string{"id", "f1/s"}
+	ann4.ReadOnly = []string{"id", "f1/s", "meta"}
 	ann4.CreateOnly = []string{"identifier", "f10/s"}
 	s.Resources = append(s.Resources, ann4)
 
